@@ -425,6 +425,7 @@ func (s *MuxSim) observe(rec *CallRec, from int, expect bool) int {
 		}
 	}
 	s.dirty = false
+	s.snapshotModel(rec)
 	return 2
 }
 
@@ -515,6 +516,10 @@ func descsEqual(a, b []refts.Desc) bool {
 }
 
 func (s *MuxSim) snapshotModel(rec *CallRec) {
+	if rec.ModelStreams != nil {
+		return
+	}
+	rec.ModelStreams = []mStream{}
 	for _, st := range s.streams {
 		rec.ModelStreams = append(rec.ModelStreams, *st)
 	}
